@@ -136,6 +136,10 @@ pub fn probe_lines(eng: &Engine, viewer: usize, pool_nicks: &[String]) -> Vec<St
     for n in &nicks {
         v.push(format!("WHOIS {}", n));
     }
+    // WHOWAS of up to three nicks with a history that are not in use now
+    for n in m.whowas.keys().filter(|n| !m.users.contains_key(*n)).take(3) {
+        v.push(format!("WHOWAS {}", n));
+    }
     v.push("LUSERS".to_string());
     v.push("LIST".to_string());
     v.push(format!("ISON {}", pool_nicks.join(" ")));
